@@ -142,7 +142,12 @@ func seekAllowed(sp *iterSpec) bool {
 		if len(sp.a) == 0 {
 			return true
 		}
-		return k != nil && bytes.Compare(k, sp.a) >= 0
+		if sp.kind == kIterPfx && sp.a[len(sp.a)-1] == 0xff {
+			// IteratePrefix's end bound is wrong for such prefixes (listed finding);
+			// a Seek would only show the same overrun under another signature
+			return false
+		}
+		return k != nil && bytes.HasPrefix(k, sp.a)
 	}
 }
 
